@@ -1,5 +1,6 @@
 import Tahoe.Base.DrvUtil
 import Tahoe.Happiness.Placement
+import Tahoe.Happiness.Selector
 /-! Driver for C07 (immutable/happiness_upload.py: share_placement and helpers).
 
 Encodings: a set / list of ids is `a,b,c` (`-` empty); a dict `k -> set` is `k:a,b;k:c` (`-` empty,
@@ -15,6 +16,9 @@ Ops:
   cmg <graph> <shareIndices>                   → _compute_maximum_graph
   calc <cfg> <peers> <shares> <servermap>      → _calculate_mappings
   dist <mappings> <homeless> <p2s>             → _distribute_homeless_shares (mappings afterwards)
+  sel <cfg> <total> op op …                    → PeerSelector history: `a:P` add_peer, `s:P:N` add_peer_with_share,
+        `r:P` mark_readonly_peer, `b:P` mark_bad_peer, `g` get_share_placements; one field per op joined by `;`
+        (`-` None, `KeyError`, or the plan), then `S:<peers>|<readonly>|<bad>|<existing>` (state afterwards)
 -/
 open Tahoe.Drv Tahoe.Happiness
 
@@ -69,6 +73,23 @@ def showPlacement : Placement → String
   | .hang => "hang"
   | .ok m => if m.isEmpty then "-" else ",".intercalate (m.map (fun e => s!"{e.1}>{e.2}"))
 
+def parseSelOp (t : String) : Option SelOp :=
+  match t.splitOn ":" with
+  | ["a", p] => do pure (.addPeer (← p.toNat?))
+  | ["s", p, n] => do pure (.addPeerWithShare (← p.toNat?) (← n.toNat?))
+  | ["r", p] => do pure (.markReadonly (← p.toNat?))
+  | ["b", p] => do pure (.markBad (← p.toNat?))
+  | ["g"] => some .getPlacements
+  | _ => none
+
+def showSetMap (m : SetMap) : String :=
+  if m.isEmpty then "-" else ";".intercalate (m.map (fun e => s!"{e.1}:{showNatList e.2}"))
+
+def showSelOut : SelOut → String
+  | .none => "-"
+  | .keyError => "KeyError"
+  | .plan p => showPlacement p
+
 def handle : List String → String
   | ["place", p, r, s, m] => match parseIds p, parseIds r, parseIds s, parseSetMap m with
     | some p, some r, some s, some m =>
@@ -91,6 +112,13 @@ def handle : List String → String
     | _, _, _, _ => "bad-op"
   | ["dist", mp, h, m] => match parseMappings mp, parseIds h, parseSetMap m with
     | some mp, some h, some m => showMappings (distributeHomeless mp h m)
+    | _, _, _ => "bad-op"
+  | "sel" :: c :: total :: ops => match parseCfg c, total.toNat?, ops.mapM parseSelOp with
+    | some c, some total, some ops =>
+      let s0 := SelState.init total
+      let s := s0.after ops
+      ";".intercalate ((s0.run c ops).map showSelOut ++
+        [s!"S:{showIds s.peers}|{showIds s.readonly}|{showIds s.bad}|{showSetMap s.existing}"])
     | _, _, _ => "bad-op"
   | _ => "bad-op"
 
